@@ -58,6 +58,23 @@ async def run_gather(ctx, arrivals, depth, reload=False):
     return [t for t in out.token_list if not isinstance(t, TerminationToken)]
 
 
+async def depth2_case(ctx, outer_n, inner_n, reloaded):
+    # nested, flattened by ONE gather of depth 2 (flat cross product): all the elements, in order, under the outer tag; the step is
+    # built in memory or loaded back from the database
+    vals = [[f"v{i}.{j}" for j in range(inner_n)] for i in range(outer_n)]
+    outer, _ = await run_scatter(ctx, [ListToken([ListToken([Token(v) for v in row]) for row in vals], tag="0")])
+    inner, _ = await run_scatter(ctx, outer)
+    arr = [("elem", t.update(t.value)) for t in inner]
+    rng.shuffle(arr)
+    arr.insert(rng.randint(0, len(arr)), ("size", Token(outer_n * inner_n, tag="0")))
+    out = await run_gather(ctx, arr, 2, reload=reloaded)
+    flat = [v for row in vals for v in row]
+    if len(out) != 1 or not isinstance(out[0], ListToken) or out[0].tag != "0" or [t.value for t in out[0].value] != flat:
+        return {"stage": "nested scatter flattened by one gather of depth 2" + (" (gather step saved and loaded back)" if reloaded else ""), "outer": outer_n, "inner": inner_n,
+                "got": [(o.tag, [t.value for t in o.value]) for o in out if isinstance(o, ListToken)][:4]}
+    return None
+
+
 async def one_case(ctx, n, nested):
     if not nested:
         vals = [f"v{i}" for i in range(n)]
@@ -74,22 +91,7 @@ async def one_case(ctx, n, nested):
             return {"stage": "gather", "n": n, "arrival": [(k, t.tag) for k, t in arr], "got": [[t.value for t in o.value] for o in out if isinstance(o, ListToken)]}
         return None
     if rng.random() < 0.4:
-        # nested, flattened by ONE gather of depth 2 (flat cross product): all the elements, in order, under the outer tag; the step is
-        # built in memory or loaded back from the database
-        outer_n, inner_n = max(1, min(n, 4)), rng.choice([1, 3, 11])
-        vals = [[f"v{i}.{j}" for j in range(inner_n)] for i in range(outer_n)]
-        outer, _ = await run_scatter(ctx, [ListToken([ListToken([Token(v) for v in row]) for row in vals], tag="0")])
-        inner, _ = await run_scatter(ctx, outer)
-        arr = [("elem", t.update(t.value)) for t in inner]
-        rng.shuffle(arr)
-        arr.insert(rng.randint(0, len(arr)), ("size", Token(outer_n * inner_n, tag="0")))
-        reloaded = rng.random() < 0.5
-        out = await run_gather(ctx, arr, 2, reload=reloaded)
-        flat = [v for row in vals for v in row]
-        if len(out) != 1 or not isinstance(out[0], ListToken) or out[0].tag != "0" or [t.value for t in out[0].value] != flat:
-            return {"stage": "nested scatter flattened by one gather of depth 2" + (" (gather step saved and loaded back)" if reloaded else ""), "outer": outer_n, "inner": inner_n,
-                    "got": [(o.tag, [t.value for t in o.value]) for o in out if isinstance(o, ListToken)][:4]}
-        return None
+        return await depth2_case(ctx, max(1, min(n, 4)), rng.choice([1, 3, 11]), rng.random() < 0.5)
     # nested: a list of lists, scattered twice, gathered twice
     shape = [rng.choice([0, 1, 2, 11]) for _ in range(n)]
     vals = [[f"v{i}.{j}" for j in range(m)] for i, m in enumerate(shape)]
@@ -225,6 +227,12 @@ async def search(n):
 
         for perm in _it.permutations("xyz"):  # every arrival order of the three tag levels, once
             bad = await nested_combinator_case(ctx, perm)
+            if bad:
+                return bad
+        # directed: a depth-2 gather over 2..3 outer indices, in memory and loaded back from the database, every run (the random cases
+        # below reach "depth 2 + reloaded + more than one outer index" in about one run out of two only — seen with VERIF_SEED=1)
+        for outer_n, inner_n, reloaded in ((2, 3, False), (2, 3, True), (3, 11, True)):
+            bad = await depth2_case(ctx, outer_n, inner_n, reloaded)
             if bad:
                 return bad
         for k in range(n):
